@@ -176,7 +176,8 @@ class Monitors(object):
             ctx.violate("dump-modified-argument:" + ("success" if out[0] == "ok" else "failure"),
                         {"op": "dump", "label": label, "value": before}, {"after": gen.trepr(x)})
         elif otrepr(x) != obefore:
-            ctx.count("info:dump-changed-key-order")
+            ctx.violate("dump-reordered-the-keys-of-its-argument", {"op": "dump", "label": label, "value": before},
+                        {"before": obefore[:400], "after": otrepr(x)[:400]})
         return out
 
     def load(self, d, label, classes=None):
@@ -197,7 +198,10 @@ class Monitors(object):
                         {"before": before, "after": after,
                          "raised": out[1] if out[0] == "raise" else None})
         elif otrepr(d) != obefore:
-            ctx.count("info:load-changed-key-order")
+            # same keys and values, different key ORDER: list(d), repr(d) and json.dumps(d) changed
+            ctx.violate("load-reordered-the-keys-of-its-argument:" + ("success" if out[0] == "ok" else "failure"),
+                        {"op": "load", "label": label, "value": jsonable_plain(d, before)},
+                        {"before": obefore[:400], "after": otrepr(d)[:400]})
         return out
 
 
